@@ -46,6 +46,21 @@ func (p *neverProbe) Observable() ro.Observable[int] {
 	})
 }
 
+// an inner source of a higher-order operator that emits one value synchronously, inside its Subscribe, and then stays
+// open for ever (a BehaviorSubject, a replay cache, StartWith over a hot source): a downstream that ends ON that value
+// ends while the operator is still inside the inner Subscribe — the inner subscription does not exist yet for the
+// operator's teardown; it must be released as soon as it is handed over. Counted on the same probe as the outer source.
+func (p *neverProbe) SyncThenOpen() ro.Observable[int] {
+	return ro.NewUnsafeObservableWithContext(func(ctx context.Context, dest ro.Observer[int]) ro.Teardown {
+		atomic.AddInt32(&p.subs, 1)
+		dest.NextWithContext(ctx, 100)
+		return func() { atomic.AddInt32(&p.teardowns, 1) }
+	})
+}
+
+// the probe of the case being run (cases run one at a time), for the set-ups whose callback creates inner sources
+var cancelProbe *neverProbe
+
 // operators of the waiting class and a few asynchronous ones, by the name of their row in the
 // regenerated table
 var cancelOps = map[string]struct {
@@ -60,6 +75,12 @@ var cancelOps = map[string]struct {
 	"OnErrorResumeNextWith": {"OnErrorResumeNextWith", func() intOp { return ro.OnErrorResumeNextWith(ro.Just(9)) }},
 	"ConcatWith":            {"ConcatAll", func() intOp { return ro.ConcatWith(ro.Just(9)) }},
 	"FlatMap":               {"-", func() intOp { return ro.FlatMap(func(v int) ro.Observable[int] { return ro.Just(v) }) }},
+	"FlatMapInnerOpen": {"-", func() intOp {
+		return ro.FlatMap(func(v int) ro.Observable[int] { return cancelProbe.SyncThenOpen() })
+	}},
+	"MergeMapInnerOpen": {"-", func() intOp {
+		return ro.MergeMap(func(v int) ro.Observable[int] { return cancelProbe.SyncThenOpen() })
+	}},
 	"SubscribeOn":           {"detachOn", func() intOp { return ro.SubscribeOn[int](4) }},
 	"Catch":                 {"Catch", func() intOp { return ro.Catch(func(err error) ro.Observable[int] { return ro.Just(9) }) }},
 	"MergeWith":             {"MergeAll", func() intOp { return ro.MergeWith(ro.Just(9)) }},
@@ -90,6 +111,7 @@ func runCancelCase(c *Case) string {
 		op = func(src ro.Observable[int]) ro.Observable[int] { return ap(src).obs.(ro.Observable[int]) }
 	}
 	probe := &neverProbe{}
+	cancelProbe = probe
 	obs := op(probe.Observable())
 	if term == "take1" {
 		obs = ro.Take[int](1)(obs)
